@@ -49,11 +49,7 @@ impl Server {
         // println!("\n\n______{}______\n\n", raw_request);
 
 
-        let mut boxed_request = Request::parse_request(request);
-        if boxed_request.is_ok() && !boxed_request.as_ref().unwrap().request_uri.starts_with(SYMBOL.slash) {
-            // routing and static file lookup are defined for origin-form targets only
-            boxed_request = Err("request target is not in origin form, it has to start with a slash".to_string());
-        }
+        let boxed_request = Request::parse_request(request);
         if boxed_request.is_err() {
             let message = boxed_request.err().unwrap();
             eprintln!("unable to parse request: {}", &message);
@@ -71,6 +67,21 @@ impl Server {
 
 
         let request: Request = boxed_request.unwrap();
+        if !request.request_uri.starts_with(SYMBOL.slash) {
+            // routing and static file lookup are defined for origin-form targets only
+            let message = "request target is not in origin form, it has to start with a slash".to_string();
+            eprintln!("unable to serve request: {}", &message);
+
+            let raw_response = Server::bad_request_response_to(message, &request.method);
+            let boxed_stream = stream.write_all(raw_response.borrow());
+            if boxed_stream.is_ok() {
+                let boxed_flush = stream.flush();
+                if boxed_flush.is_err() {
+                    eprintln!("unable to flush TCP stream {}", boxed_flush.err().unwrap());
+                }
+            };
+            return raw_response;
+        }
         let (response, request) = App::handle_request(request);
 
 
@@ -90,8 +101,13 @@ impl Server {
     }
 
     pub fn bad_request_response(message: String) -> Vec<u8> {
+        Server::bad_request_response_to(message, METHOD.get)
+    }
+
+    // the answer to a HEAD or OPTIONS request has the same head and no body
+    pub fn bad_request_response_to(message: String, method: &str) -> Vec<u8> {
         let error_request = Request {
-            method: METHOD.get.to_string(),
+            method: method.to_string(),
             request_uri: "".to_string(),
             http_version: "".to_string(),
             headers: vec![],
@@ -150,11 +166,7 @@ impl Server {
         // println!("\n\n______{}______\n\n", raw_request);
 
 
-        let mut boxed_request = Request::parse(request);
-        if boxed_request.is_ok() && !boxed_request.as_ref().unwrap().request_uri.starts_with(SYMBOL.slash) {
-            // routing and static file lookup are defined for origin-form targets only
-            boxed_request = Err("request target is not in origin form, it has to start with a slash".to_string());
-        }
+        let boxed_request = Request::parse(request);
         if boxed_request.is_err() {
             let message = boxed_request.err().unwrap();
 
@@ -175,11 +187,29 @@ impl Server {
 
 
         let request: Request = boxed_request.unwrap();
+        if !request.request_uri.starts_with(SYMBOL.slash) {
+            // routing and static file lookup are defined for origin-form targets only
+            let message = "request target is not in origin form, it has to start with a slash".to_string();
+
+            let raw_response = Server::bad_request_response_to(message.clone(), &request.method);
+            let boxed_stream = stream.write_all(raw_response.borrow());
+            if boxed_stream.is_ok() {
+                let boxed_flush = stream.flush();
+                if boxed_flush.is_err() {
+                    return Err(boxed_flush.err().unwrap().to_string());
+                }
+            } else {
+                let write_message = boxed_stream.err().unwrap().to_string();
+                let combined_error = [message, SYMBOL.comma.to_string(), write_message].join(SYMBOL.empty_string);
+                return Err(combined_error);
+            };
+            return Err(message);
+        }
 
         let app_processing = app.execute(&request, &connection);
         if app_processing.is_err() {
             let message = app_processing.as_ref().err().unwrap().to_string();
-            let response = Server::bad_request_response(message.clone());
+            let response = Server::bad_request_response_to(message.clone(), &request.method);
 
             let boxed_stream = stream.write_all(response.borrow());
             if boxed_stream.is_ok() {
